@@ -81,6 +81,8 @@ type State struct {
 	iterMod   map[ssa.Value]Term
 	iterRef   map[ssa.Value]Term
 	mapTypes  map[string]mapInfo
+	specIters []*specIter
+	lastIter  *specIter
 	path      []string
 	dead      bool
 }
@@ -91,7 +93,7 @@ func NewState() *State {
 }
 
 func (s *State) Clone() *State {
-	n := &State{next: s.next, actions: s.actions, dead: s.dead}
+	n := &State{next: s.next, actions: s.actions, dead: s.dead, specIters: s.specIters[:len(s.specIters):len(s.specIters)], lastIter: s.lastIter}
 	n.pc = append([]Term(nil), s.pc...)
 	n.path = append([]string(nil), s.path...)
 	n.cells = make(map[int]Val, len(s.cells))
